@@ -230,7 +230,10 @@ class ErrorTree(object):
         for error in errors:
             container = self
             for element in error.path:
-                container = container[element]
+                # not `container[element]`: a Draft 3 `required` error ends
+                # its path with the *missing* property, which the checked
+                # lookup would reject once the node knows its instance
+                container = container._contents[element]
             container.errors[error.validator] = error
 
             container._instance = error.instance
